@@ -28,8 +28,18 @@ ASSUMPTIONS = ['the equal-value claim is decided by proof only in the directions
                'known finding F7: sum_age_force_equality=True is not without loss of generality when a positive term lies in no cover']
 
 
-def gen_f(rng, n):
+def gen_f(rng, n, separable=False):
     """positive terms at 'vertices' (incl. the constant), negative terms at midpoints of pairs of vertices: bounded below"""
+    if n >= 2 and (separable or rng.random() < 0.2):
+        # separable family: c0 + sum_j a_j exp(2 x_j) - sum_j b_j exp(x_j); after the orthogonality-based reduction every
+        # negative term keeps a cover of only two exponents
+        rows = [([Fraction(0)] * n, Fraction(rng.choice([1, 2, 3])))]
+        for j in range(n):
+            rows.append(([Fraction(2 if i == j else 0) for i in range(n)], Fraction(rng.choice([1, 2]))))
+        for j in range(n):
+            if j == 0 or rng.random() < 0.7:
+                rows.append(([Fraction(1 if i == j else 0) for i in range(n)], Fraction(-rng.choice([1, 2, 3]))))
+        return rows
     nonneg = rng.random() < 0.5
     verts = [[Fraction(0)] * n]
     tries = 0
@@ -41,12 +51,23 @@ def gen_f(rng, n):
             a = [Fraction(rng.choice([0, 2, -2, 4, -4, 1])) for _ in range(n)]
         if a not in verts:
             verts.append(a)
+    if nonneg and n >= 2 and rng.random() < 0.5:
+        # some negative exponents while every row sum stays nonnegative (and the zero row is present)
+        cand = [a for a in verts if max(a) >= 2]
+        if cand:
+            a = rng.choice(cand)
+            j = a.index(max(a))
+            b = list(a)
+            b[(j + 1) % n] = -a[j] / 2 if rng.random() < 0.5 else Fraction(-1)
+            if b not in verts:
+                verts[verts.index(a)] = b
     rows = [(a, Fraction(rng.choice([1, 2, 3]))) for a in verts]
-    for _ in range(rng.randint(1, 2)):
+    for _ in range(rng.randint(1, 3)):
         p, q = rng.sample(verts, 2)
-        mid = [(x + y) / 2 for x, y in zip(p, q)]
+        w = rng.choice([Fraction(1, 2), Fraction(1, 2), Fraction(1, 4), Fraction(3, 4)])
+        mid = [w * x + (1 - w) * y for x, y in zip(p, q)]
         if mid not in [r for r, _ in rows]:
-            rows.append((mid, Fraction(rng.choice([-1, -2, -1, 1]))))
+            rows.append((mid, Fraction(rng.choice([-1, -2, -1, -3, 1]))))
     return rows
 
 
@@ -103,8 +124,11 @@ def solve_all(f, X):
                 L = f - gamma
                 m = L.m
                 covers = {i: np.array([j != i for j in range(m)], dtype=bool) for i in range(m)}
-                con = cl.PrimalSageCone(L.c, L.alpha, None, 'full', covers=covers, settings={'sum_age_force_equality': False})
-                out[('primal', 'fullcovers')] = cl.Problem(cl.MAX, gamma, [con]).solve(verbose=False)
+                for feq in (False, True):
+                    # with full covers every term lies in a cover, so forcing equality is without loss of generality
+                    con = cl.PrimalSageCone(L.c, L.alpha, None, 'full', covers={i: cv.copy() for i, cv in covers.items()},
+                                            settings={'sum_age_force_equality': feq})
+                    out[('primal', 'fullcovers', feq)] = cl.Problem(cl.MAX, gamma, [con]).solve(verbose=False)
     finally:
         sc.SETTINGS.clear()
         sc.SETTINGS.update(saved)
@@ -114,6 +138,8 @@ def solve_all(f, X):
 def compare(out, f7, X, ub):
     """returns (violation or None, known-finding hit or None)"""
     known = None
+    # a constructor that refuses the constraint as infeasible says the same as a solve that returns -inf
+    out = {k: (('solved', -math.inf) if (v[0] == 'construction-error' and k[0] == 'primal') else v) for k, v in out.items()}
     ok = {k: v for k, v in out.items() if v[0] == 'solved' and isinstance(v[1], float) and not math.isnan(v[1])}
     if len(ok) < 2:
         return None, None
@@ -146,14 +172,20 @@ def compare(out, f7, X, ub):
         v = ok[k][1]
         if ref is not None and math.isfinite(v) and v > ref[1] + 1e-5 * (1 + abs(ref[1])):
             return 'heuristic option combination %s raised the bound: %r > %r' % (k, v, ref[1]), None
+    for k in ok:
+        v = ok[k][1]
         if math.isfinite(ub) and math.isfinite(v) and v > ub + 1e-4 * (1 + abs(ub)):
             return 'option combination %s gives %r, above f at a sampled point (%r)' % (k, v, ub), None
+    for k, v in out.items():
+        # a solve reported 'inaccurate' still claims an approximate optimum: far above f at a point of X it is wrong
+        if v[0] == 'inaccurate' and isinstance(v[1], float) and math.isfinite(v[1]) and math.isfinite(ub) and v[1] > ub + 1e-2 * (1 + abs(ub)):
+            return 'option combination %s gives %r (status inaccurate), far above f at a sampled point (%r)' % (k, v[1], ub), None
     return None, known
 
 
-def one(rng):
-    n = rng.randint(1, 2)
-    rows = gen_f(rng, n)
+def one(rng, separable=False):
+    n = 2 if separable else rng.randint(1, 2)
+    rows = gen_f(rng, n, separable)
     f = c03.sig_obj(rows, n)
     kind = rng.choice(['none', 'none', 'none', 'box', 'ball'])
     X, _ = sagecorr.make_domain(rng, n, kind)
@@ -173,8 +205,8 @@ def one(rng):
 def run(ctx):
     kf = {f['id']: f for f in vlib.load_known_findings().get('findings', [])}
     hit = False
-    for _ in range(ctx.n(14, 140)):
-        why, known, js, out = one(ctx.rng)
+    for it in range(ctx.n(30, 240)):
+        why, known, js, out = one(ctx.rng, separable=(it < 4))
         ctx.evaluations += len(out)
         ctx.count('domain', js['domain'])
         vals = sorted(set(round(v[1], 4) for v in out.values() if v[0] == 'solved' and isinstance(v[1], float) and math.isfinite(v[1])))
@@ -190,7 +222,7 @@ def run(ctx):
         if why:
             ctx.problem('oracle', 'property fails on the implementation: ' + why, inputs=js, failing_input_found=True)
             break
-    ctx.suites['option_lattice'] = {'instances': ctx.n(14, 140)}
+    ctx.suites['option_lattice'] = {'instances': ctx.n(30, 240)}
     why = probe_kernel_scale()
     ctx.suites['kernel_basis_small_scale'] = {'cases': 3, 'failure': why}
     ctx.evaluations += 3
@@ -253,8 +285,8 @@ def search(ctx):
     why = probe_kernel_scale()
     if why:
         return {'suite': 'kernel_basis_small_scale', 'property_failure': why}
-    for _ in range(25):
-        why, known, js, out = one(ctx.rng)
+    for it in range(25):
+        why, known, js, out = one(ctx.rng, separable=(it < 4))
         if why:
             return {'instance': js, 'property_failure': why}
     return None
